@@ -19,6 +19,7 @@ REGISTRY = {
     "C09": "c09",
     "C10": "c10",
     "C11": "c11",
+    "C12": "c12",
     "C13": "c13",
     "C14": "c14",
     "C15": "c15",
